@@ -403,9 +403,11 @@ class NMEA2000Decoder():
                     return None
                 logger.warning("No ISO name found for source %s in PGN id %s for too long. Will process it anyhow.", source_id, pgn)
         
-            if source_iso_name is not None and source_iso_name.manufacturer_code is not None:
-                # Check if the PGN should be excluded or included based on manufacturer
-                manufacturer_code = source_iso_name.manufacturer_code.lower()
+            if source_iso_name is not None:
+                # Check if the PGN should be excluded or included based on manufacturer.
+                # A manufacturer code the lookup table does not know (None) matches no list entry:
+                # it cannot be excluded by name, and it does not pass an include list.
+                manufacturer_code = source_iso_name.manufacturer_code.lower() if source_iso_name.manufacturer_code is not None else None
                 if manufacturer_code in self.exclude_manufacturer_code:
                     logger.debug(f"Excluding PGN: {pgn} based on manufacturer code {source_iso_name.manufacturer_code}")
                     return None
